@@ -1133,9 +1133,15 @@ func (l *Lowerer) branchStmt(x *ast.BranchStmt) {
 			}
 		}
 	case token.GOTO:
+		if gl, ok := l.gotoLoops[x.Label.Name]; ok {
+			// backward goto into a label that was lowered as a cut loop head: check its invariant, then stop
+			l.invClausesNamed(gl.spec, "inv-preserve", x.Label.Name, x)
+			gl.li.LastBody = len(l.f.Blocks) - 1
+			l.cur = nil
+			return
+		}
 		b := l.labelBlock(x.Label.Name)
-		if b.Loop != nil || l.labelSeen[x.Label.Name] {
-			// backward goto: a loop without invariant support — cut conservatively
+		if l.labelSeen[x.Label.Name] {
 			l.unsupported(x, "backward goto "+x.Label.Name)
 			l.assume(tFalse)
 			l.cur = nil
@@ -1163,7 +1169,124 @@ func (l *Lowerer) labelBlock(name string) *Block {
 	return b
 }
 
+type gotoLoop struct {
+	li   *LoopInfo
+	spec *LoopSpec
+}
+
+// invClausesNamed: invariants of a label loop (`loop <label>: invariant ...`).
+func (l *Lowerer) invClausesNamed(ls *LoopSpec, kind, label string, node ast.Node) {
+	if c := l.autoInv(); c != nil {
+		l.assertOb(kind, "loop."+label+".state", c.Src, node, l.specTerm(c, nil), l.curProps)
+	}
+	if ls == nil {
+		return
+	}
+	for _, c := range ls.Invs {
+		savedPos := l.specPos
+		l.specPos = node.Pos()
+		t := l.specTerm(c, nil)
+		l.specPos = savedPos
+		lbl := "loop." + label
+		if c.Label != "" {
+			lbl += "." + c.Label
+		}
+		l.assertOb(kind, lbl, c.Src, node, t, clausePropsOr(l.fr, c, l.curProps))
+	}
+}
+
+// backwardGotoLabels: labels that are the target of a goto appearing after them in the source.
+func backwardGotoLabels(body ast.Node) map[string]bool {
+	labelPos := map[string]token.Pos{}
+	ast.Inspect(body, func(n ast.Node) bool {
+		if ls, ok := n.(*ast.LabeledStmt); ok {
+			labelPos[ls.Label.Name] = ls.Pos()
+		}
+		return true
+	})
+	out := map[string]bool{}
+	ast.Inspect(body, func(n ast.Node) bool {
+		if bs, ok := n.(*ast.BranchStmt); ok && bs.Tok == token.GOTO && bs.Label != nil {
+			if p, ok := labelPos[bs.Label.Name]; ok && p < bs.Pos() {
+				out[bs.Label.Name] = true
+			}
+		}
+		return true
+	})
+	return out
+}
+
 func (l *Lowerer) labeled(x *ast.LabeledStmt) {
+	if l.backLabels == nil {
+		top := l.fr
+		for top.parent != nil {
+			top = top.parent
+		}
+		l.backLabels = map[string]bool{}
+		for fr := l.fr; fr != nil; fr = fr.parent {
+			if fr.fi.Body != nil {
+				for k := range backwardGotoLabels(fr.fi.Body) {
+					l.backLabels[k] = true
+				}
+			}
+		}
+	}
+	if l.backLabels[x.Label.Name] && l.cur != nil {
+		// a label re-entered by a later goto: cut loop with invariants `loop <label>: invariant ...`
+		top := l.fr
+		for top.parent != nil {
+			top = top.parent
+		}
+		var ls *LoopSpec
+		if top.contract != nil {
+			ls = top.contract.NamedLoops[x.Label.Name]
+		}
+		head := l.f.newBlock("gotoloop." + x.Label.Name)
+		li := &LoopInfo{Ordinal: -1, FirstBody: head.ID, ExitID: -1}
+		head.Loop = li
+		l.invClausesNamed(ls, "inv-entry", x.Label.Name, x)
+		l.jump(head)
+		l.cur = head
+		li.HavocAt = 0
+		if c := l.autoInv(); c != nil {
+			l.assume(l.specTerm(c, nil))
+		}
+		if ls != nil {
+			for _, c := range ls.Invs {
+				savedPos := l.specPos
+				l.specPos = x.Pos()
+				l.assume(l.specTerm(c, nil))
+				l.specPos = savedPos
+			}
+		}
+		if l.gotoLoops == nil {
+			l.gotoLoops = map[string]*gotoLoop{}
+		}
+		l.gotoLoops[x.Label.Name] = &gotoLoop{li: li, spec: ls}
+		li.LastBody = len(l.f.Blocks) - 1
+		l.labelSeen[x.Label.Name] = true
+		switch s := x.Stmt.(type) {
+		case *ast.ForStmt:
+			l.forStmt(s, x.Label.Name)
+		case *ast.RangeStmt:
+			l.rangeStmt(s, x.Label.Name)
+		case *ast.SwitchStmt:
+			l.switchStmt(s, x.Label.Name)
+		case *ast.SelectStmt:
+			l.selectStmt(s, x.Label.Name)
+		case *ast.TypeSwitchStmt:
+			l.typeSwitchStmt(s, x.Label.Name)
+		default:
+			l.stmt(x.Stmt, x.Label.Name)
+		}
+		if li.LastBody < len(l.f.Blocks)-1 {
+			// the statement's own blocks belong to the loop; gotos seen later extend the range further
+			if li.LastBody < head.ID {
+				li.LastBody = head.ID
+			}
+		}
+		return
+	}
 	switch x.Stmt.(type) {
 	case *ast.ForStmt, *ast.RangeStmt, *ast.SwitchStmt, *ast.SelectStmt, *ast.TypeSwitchStmt:
 		// a label on a loop may still be a goto target
